@@ -70,7 +70,12 @@ def frames():
 
 def build(p, with_bbox=True):
     det, foc, sky = frames()
-    w = gw.WCS([(det, step1(p)), (foc, step2(p)), (sky, None)])
+    t1 = step1(p)
+    if with_bbox and p.get("bbox") is not None and p.get("bbox_on_model"):
+        # the box set on the astropy model itself, in astropy's own ('C': last axis first) order
+        t1.bounding_box = tuple(tuple(b) for b in p["bbox"])[::-1]
+        return gw.WCS([(det, t1), (foc, step2(p)), (sky, None)])
+    w = gw.WCS([(det, t1), (foc, step2(p)), (sky, None)])
     if with_bbox and p.get("bbox") is not None:
         w.bounding_box = tuple(tuple(b) for b in p["bbox"])
     return w
